@@ -204,10 +204,39 @@ func checkFile(content string, strict bool, cs *explore.Case, input map[string]a
 	}
 }
 
+// prior is the file parsed before the one under test (pipeline.PriorFiles), chosen by each space.
+var prior int
+
+// digest of what a parse found: rules with their lines and errors
+func parseDigest(entries []discovery.Entry) string {
+	var l []string
+	for _, e := range entries {
+		if e.PathError != nil {
+			l = append(l, "PATHERROR "+e.PathError.Error())
+			continue
+		}
+		l = append(l, fmt.Sprintf("%s %s %d-%d %v", e.Rule.Type(), e.Rule.Name(), e.Rule.Lines.First, e.Rule.Lines.Last, e.Rule.Error.Err))
+	}
+	return strings.Join(l, "\n")
+}
+
 func checkFile1(content string, strict bool, cs *explore.Case, input map[string]any) {
+	pipeline.Prime(prior)
+	input["file_parsed_before"] = pipeline.PriorFiles[prior]
 	lines := strings.Split(content, "\n")
 	path := pipeline.WriteFile("rules.yml", []byte(content))
 	entries, crash := pipeline.Parse(path, []byte(content), strict, parser.PrometheusSchema, model.UTF8Validation)
+	if prior > 0 && crash == nil {
+		// the same file after the neutral prior file: what is found must not depend on the file parsed before
+		pipeline.Prime(0)
+		ref, rcrash := pipeline.Parse(path, []byte(content), strict, parser.PrometheusSchema, model.UTF8Validation)
+		if rcrash == nil && parseDigest(ref) != parseDigest(entries) {
+			cs.Violate("previous-file-influences-parse", fmt.Sprintf("after prior file %d the parse finds\n%s\nafter the neutral file it finds\n%s", prior, parseDigest(entries), parseDigest(ref)), input)
+			return
+		}
+		pipeline.Prime(prior)
+		entries, crash = pipeline.Parse(path, []byte(content), strict, parser.PrometheusSchema, model.UTF8Validation)
+	}
 	if crash != nil {
 		cs.Count("parse_crashed", 1)
 		return
@@ -322,9 +351,10 @@ func styled(c *explore.Chooser) *explore.Case {
 		return &explore.Case{Skip: true}
 	}
 	mode := c.Free(2, "also-relaxed")
+	prior = c.Free(len(pipeline.PriorFiles), "file-parsed-before")
 	strict := strings.HasPrefix(d.Text, "groups:") && mode == 0
 	input := map[string]any{"choices": d.Choices, "file": d.Text, "strict": strict}
-	cs := &explore.Case{Input: input, Key: fmt.Sprint(strict) + d.Text, Trivial: len(d.Choices) == 0}
+	cs := &explore.Case{Input: input, Key: fmt.Sprint(strict, prior) + d.Text, Trivial: len(d.Choices) == 0}
 	checkFile(d.Text, strict, cs, input)
 	if cs.Stats["rules"] == 0 {
 		cs.Count("generated_but_no_rule_parsed", 1)
@@ -340,6 +370,7 @@ func embedded(c *explore.Chooser) *explore.Case {
 	if !d.Valid || !strings.HasPrefix(d.Text, "groups:") || strings.HasPrefix(d.Text, "groups:\n\n") {
 		return &explore.Case{Skip: true}
 	}
+	prior = 0
 	depth := 1 + c.Free(2, "embed-depth")
 	indent := []int{2, 4}[c.Free(2, "embed-indent")]
 	before := c.Free(3, "siblings-before")
@@ -375,6 +406,7 @@ func embedded(c *explore.Chooser) *explore.Case {
 }
 
 func corpus(c *explore.Chooser) *explore.Case {
+	prior = 0
 	si := c.Free(len(seeds), "seed")
 	op := c.Free(6, "transform")
 	strict := c.Free(2, "relaxed") == 0
@@ -410,6 +442,11 @@ func corpus(c *explore.Chooser) *explore.Case {
 }
 
 func main() {
+	// one P per worker: a sync.Pool then hands a released object back to the next Get, so state leaking through
+	// pooled objects from the file parsed before is deterministic instead of depending on goroutine migration
+	if os.Getenv("VERIF_WORKER_GOMAXPROCS") == "" {
+		os.Setenv("VERIF_WORKER_GOMAXPROCS", "1")
+	}
 	explore.Main(&explore.Config{
 		Property: "C06", Level: "exploration",
 		Rule: "(a) one/two-rule documents: every extracted field (alert, expr, for, keep_firing_for, label/annotation values, quoted label key) x 17 scalar styles (plain, quoted, literal/folded with every chomping indicator, indentation indicator, 1- and 4-space block indents, multi-line plain/quoted, blank lines) x value vocabulary stressing the greedy matcher x comment/blank placement x 5 layouts x field order x final newline, all documents with <=k non-default choices (k=2 quick, 3 thorough), strict and relaxed; (b) every YAML fixture of the repository x 6 whole-file transforms x 2 modes. Oracle needs no hand-written expectation: the file read at YamlNode.Pos must spell YamlNode.Value; every sub-range through readRange; every diagnostic of every default check. distinct = distinct (mode, bytes); non-trivial = at least one rule parsed / one non-default choice",
